@@ -176,6 +176,11 @@ where
                 let source = response.as_message();
                 let mut target = mk_builder_for_target();
 
+                // What is left has to fit, too: an OPT record with large
+                // options can exceed the limit all by itself. (A push
+                // fails when the message would reach the push limit.)
+                target.set_push_limit(max_response_size + 1);
+
                 *target.header_mut() = source.header();
 
                 let mut target = target.question();
